@@ -88,6 +88,13 @@ func openWorld(path string) *world {
 	b1 := chain.NewBlock(chain.Tip, "a", nil)
 	chain.Tip = b1
 	w.VerifSetChainClient(wsim.NewBackend(chain))
+	// unlocked, as the public entry points require (CreateSimpleTx holds the unlock): on a
+	// locked manager txToOutputs takes every account for watch-only and skips signing
+	if err := walletdb.View(db, func(tx walletdb.ReadTx) error {
+		return w.Manager.Unlock(tx.ReadBucket([]byte("waddrmgr")), privPass)
+	}); err != nil {
+		ev.Fatal("unlock: %v", err)
+	}
 	return &world{db: db, w: w, path: path}
 }
 
@@ -560,6 +567,13 @@ func checkExec(run *ev.Run, sc scenario, x *vsync.Exec, w *world, results []*res
 	if len(x.Panics) > 0 {
 		fail("panic", strings.Join(x.Panics, "; "))
 		return "panic"
+	}
+	if os.Getenv("C09_DEBUG") != "" {
+		df, _ := os.OpenFile(os.Getenv("C09_DEBUG"), os.O_APPEND|os.O_CREATE|os.O_WRONLY, 0o644)
+		defer df.Close()
+		for _, r := range results {
+			fmt.Fprintf(df, "debug: %s err=%v ext=%v int=%v int86=%v locked=%v\n", r.op, r.err, r.ext, r.intl, r.intl86, w.w.Manager.IsLocked())
+		}
 	}
 	var outcome []string
 	for _, r := range results {
